@@ -383,18 +383,19 @@ impl PackageBuilder {
             desc: "no parent directory found",
         })?;
 
-        let (cpio_path, dir) = if dest.starts_with('.') {
+        let (cpio_path, mut dir) = if dest.starts_with('.') {
             (
                 dest.to_string(),
                 // strip_prefix() should never fail because we've checked the special cases already
-                format!("/{}/", parent.strip_prefix(".").unwrap().to_string_lossy()),
+                format!("/{}", parent.strip_prefix(".").unwrap().to_string_lossy()),
             )
         } else {
-            (
-                format!(".{}", dest),
-                format!("{}/", parent.to_string_lossy()),
-            )
+            (format!(".{}", dest), parent.to_string_lossy().to_string())
         };
+        // directory names end in exactly one slash, also for files directly below the root
+        if !dir.ends_with('/') {
+            dir.push('/');
+        }
 
         let mut hasher = sha2::Sha256::default();
         hasher.update(&content);
